@@ -114,7 +114,10 @@ def run(ctx):
     # deductive part: Wrapc.write_header lists exactly what it writes, in the C/Fortran directory (same unit as C05/U2)
     u = copy.copy(util_header.write_header)
     u.prop = "C15"
-    ctx.pyvc([u], {"Wrapc.write_header": ("m_wrapsel", lambda v: None, lambda nm: None, 20)})
+    from contracts import ast_wrapflags, main_dirs
+    mon = ("m_wrapsel", lambda v: None, lambda nm: None, 60)
+    units = [u] + ast_wrapflags.UNITS + main_dirs.UNITS
+    ctx.pyvc(units, dict((x.name, mon) for x in units))
     ctx.trusted += [
         "structural items are computed over the real AST: write_output_file call sites, cfiles/ffiles append sites and "
         "their enclosing conditions; main_with_args gating",
